@@ -76,6 +76,10 @@ def h_hedge(run, cfg):
     m1, m2 = cfg['mults']
     U = {'r1': pd.DataFrame({'x': [3.0, 2.5], 'h1': [1.0, 1.25], 'h2': [0.5, 0.25]}, index=dts),
          'r2': pd.DataFrame({'x': [-1.0, -1.5], 'h1': [0.25, 0.5], 'h2': [2.0, 1.75]}, index=dts)}
+    if cfg.get('misaligned'):
+        # the tables of different measures need not share an index: r2 carries an extra earlier row
+        early = dts[0] - pd.Timedelta(days=3)
+        U['r2'] = pd.DataFrame({'x': [4.0, -1.0, -1.5], 'h1': [-2.0, 0.25, 0.5], 'h2': [0.125, 2.0, 1.75]}, index=[early, dts[0], dts[1]])
     sep = bool(cfg.get('separate'))
     pseudo = bool(cfg.get('pseudo'))
     hedges = ['h1', 'h2'] if not pseudo else ['h1']
@@ -187,7 +191,67 @@ def h_close_roll(run, cfg):
     run.check(('b' in st.perm.get('rolled', set())), 'rolled-security-recorded')
 
 
-HARNESSES = {'risk': h_risk, 'hedge': h_hedge, 'close_roll': h_close_roll}
+def h_roll_many(run, cfg):
+    """several maturing securities roll on solver-chosen dates (possibly the same one) into one target that already holds a position"""
+    B = bt()
+    A = B.algos
+    C = B.core
+    dts = dates(4)
+    cols = ['a', 'b', 'c', 'd']
+    P = dict(PR, d=[20.0, 21.0, 19.0, 22.0, 20.5])
+    data = frame(run, dts, cols, lambda i, c: P[c][i])
+    ka, kb, kd = cfg['when']
+    fac = {'a': 0.5, 'b': 2.0, 'd': -1.0}
+    when = {'a': ka, 'b': kb, 'd': kd}
+    roll = pd.DataFrame({'date': [dts[ka], dts[kb], dts[kd]], 'target': ['c', 'c', cfg.get('d_target', 'c')], 'factor': [fac['a'], fac['b'], fac['d']]}, index=['a', 'b', 'd'])
+    log = []
+    live = {}
+
+    class Snap(B.Algo):
+        def __init__(self, tag):
+            super().__init__()
+            self.tag = tag
+
+        def __call__(self, target):
+            if target is live.get('s'):
+                log.append((self.tag, target.now, {n: target[n].position for n in cols}))
+            return True
+
+    class Seed(B.Algo):
+        """opens the book on the first run"""
+        def __call__(self, target):
+            if 'seeded' not in target.perm:
+                target.perm['seeded'] = True
+                for n, q in (('a', qa), ('b', qb), ('c', 7.0), ('d', qd)):
+                    target.transact(q, n)
+            return True
+    qa, qb, qd = run.real('qa', -200, 200), run.real('qb', -200, 200), run.real('qd', -200, 200)
+    s = B.Strategy('s', [Seed(), Snap('pre'), A.RollPositionsAfterDates('roll'), Snap('post')], [C.Security(n) for n in cols])
+    t = B.Backtest(s, data, initial_capital=1000000.0, integer_positions=False, additional_data={'roll': roll})
+    live['s'] = t.strategy
+    try:
+        t.run()
+    except Exception as e:
+        run.fail('close-roll-run-completes', repr(e))
+    pre = {now: p for tag, now, p in log if tag == 'pre'}
+    post = {now: p for tag, now, p in log if tag == 'post'}
+    done = set()
+    for i, d in enumerate(dts):
+        if d not in pre:
+            continue
+        today = [n for n in ('a', 'b', 'd') if when[n] <= i and n not in done]
+        done.update(today)
+        want = dict(pre[d])
+        for n in today:
+            tgt = roll['target'][n]
+            want[tgt] = want[tgt] + fac[n] * pre[d][n]
+        for n in today:
+            want[n] = want[n] - pre[d][n]          # the matured position is closed (what was rolled INTO it on this date stays)
+        for n in cols:
+            run.check_near(post[d][n], want[n], 1e-9, 'rolled-at-conversion-factor', '%s @%s rolling today %s (dates a=%d b=%d d=%d)' % (n, d.date(), today, ka, kb, kd))
+
+
+HARNESSES = {'risk': h_risk, 'hedge': h_hedge, 'close_roll': h_close_roll, 'roll_many': h_roll_many}
 WITNESS_CAP = {'quick': 120, 'thorough': 300}
 
 
@@ -200,5 +264,11 @@ def plan(tier):
         for sep in (0, 1):
             tasks.append(dict(harness='hedge', cfg=dict(mults=mults, separate=sep, pseudo=0), opts=opts))
         tasks.append(dict(harness='hedge', cfg=dict(mults=mults, separate=0, pseudo=1), opts=opts))
+    tasks.append(dict(harness='hedge', cfg=dict(mults=[1.0, 1.0], separate=0, pseudo=0, misaligned=1), opts=opts))
+    tasks.append(dict(harness='hedge', cfg=dict(mults=[10.0, 1.0], separate=1, pseudo=0, misaligned=1), opts=opts))
     tasks.append(dict(harness='close_roll', cfg={}, opts=opts))
+    for when in ([1, 1, 1], [1, 1, 3], [0, 0, 2], [2, 1, 2], [3, 3, 3], [1, 2, 2]):
+        tasks.append(dict(harness='roll_many', cfg=dict(when=when), opts=opts))
+    for when in ([1, 1, 1], [2, 3, 2], [2, 1, 1]):
+        tasks.append(dict(harness='roll_many', cfg=dict(when=when, d_target='a'), opts=opts))      # chain: d rolls into a, a into c
     return tasks
